@@ -564,13 +564,49 @@ package bkl
 //@ func mergeDocs(doc, patch) (err)
 //@   property C02
 //@   modifies Document.Data[doc], Document.Parents[patch]
+//@   requires (not (= doc patch))
+//@   ensures (= (isErr err) (mergeErr (old (Document.Data doc)) (old (Document.Data patch))))                                   [C02]
+//@   ensures (=> (isErr err) (and (= (heap Document.Data) (old (heap Document.Data))) (= (heap Document.Parents) (old (heap Document.Parents)))))   [C02]
+//@   ensures (=> (not (isErr err)) (= (heap Document.Data)                                                                     [C02]
+//@              (store (old (heap Document.Data)) doc (mergeF (old (Document.Data doc)) (old (Document.Data patch))))))
+//@   ensures (=> (not (isErr err)) (= (heap Document.Parents)                                                                  [C02]
+//@              (store (old (heap Document.Parents)) patch (rapp (old (Document.Parents patch)) (RCons doc RNil)))))
 
 //@ func Parser.MergeDocument(p, patch) (err)
 //@   property C02
 //@   modifies Parser.docs, Document.Data, Document.Parents
 //@ func Parser.mergePatchMatch(p, patch) (matched, err)
 //@   property C02
-//@   modifies Parser.docs, Document.Data, Document.Parents
+//@   modifies Parser.docs, Document.Data, Document.Parents, Document.ID
+//@   uses rmemApp, rdistinctApp, rappNil, rsnocApp, anyRejectedApp
+//@   requires (rdistinct (Parser.docs p)) (not (rmem patch (Parser.docs p))) (not (= patch 0))
+//@   requires (forall ((r Int)) (=> (rmem r (Parser.docs p)) (and (not (= r 0)) (< r allocTop))))
+//@   ensures (= matched (and ((_ is VMap) (old (Document.Data patch))) (not (= (select (mc (old (Document.Data patch))) "$match") VAbsent))))          [C02]
+//@   ensures (=> (not matched) (and (not (isErr err)) (= (heap Document.Data) (old (heap Document.Data)))                                          [C02]
+//@                                  (= (heap Parser.docs) (old (heap Parser.docs))) (= (heap Document.Parents) (old (heap Document.Parents)))))
+//@   ensures (=> (and matched (= (select (mc (old (Document.Data patch))) "$match") VNil))                                                         [C02]
+//@              (let ((body (VMap (store (mc (old (Document.Data patch))) "$match" VAbsent))))
+//@                (and (not (isErr err))
+//@                     (exists ((n Int)) (and (>= n allocTop) (= (Parser.docs p) (rapp (old (Parser.docs p)) (RCons n RNil)))
+//@                                            (= (Document.Data n) (mergeF VNil body))))
+//@                     (forall ((r Int)) (=> (and (< r allocTop) (not (= r patch))) (= (Document.Data r) (old (Document.Data r))))))))
+//@   ensures (=> (and matched (not (= (select (mc (old (Document.Data patch))) "$match") VNil)))                                                   [C02]
+//@              (let ((body (VMap (store (mc (old (Document.Data patch))) "$match" VAbsent)))
+//@                    (pat (select (mc (old (Document.Data patch))) "$match")))
+//@              (let ((h1 (store (old (heap Document.Data)) patch body)))
+//@              (let ((ts (ite (not (= (filterMatch h1 (parentsOf (old (heap Parser.docs)) (old (heap Document.ID)) (old (heap Document.Parents)) p patch) pat) RNil))
+//@                             (filterMatch h1 (parentsOf (old (heap Parser.docs)) (old (heap Document.ID)) (old (heap Document.Parents)) p patch) pat)
+//@                             (filterMatch h1 (old (Parser.docs p)) pat))))
+//@                (and (= (heap Parser.docs) (old (heap Parser.docs)))
+//@                     (=> (= ts RNil) (= err ErrNoMatchFound))
+//@                     (=> (not (isErr err)) (appliedTo h1 (heap Document.Data) ts body))
+//@                     (=> (and (isErr err) (not (= ts RNil))) (anyRejected h1 ts body)))))))
+//@   loop 1
+//@     invariant (= (heap Parser.docs) (old (heap Parser.docs)))
+//@     invariant (appliedTo (store (old (heap Document.Data)) patch (VMap (store (mc (old (Document.Data patch))) "$match" VAbsent))) (heap Document.Data) done
+//@                          (VMap (store (mc (old (Document.Data patch))) "$match" VAbsent)))
+//@     invariant (not (anyRejected (store (old (heap Document.Data)) patch (VMap (store (mc (old (Document.Data patch))) "$match" VAbsent))) done
+//@                          (VMap (store (mc (old (Document.Data patch))) "$match" VAbsent))))
 //@ func Parser.mergeFile(p, f) (err)
 //@   property C02
 //@   modifies Parser.docs, Document.Data, Document.Parents
@@ -693,3 +729,34 @@ package bkl
 //@   property C18
 //@   effects open-root:os.Root.OpenRoot, probe
 //@   modifies Parser.root, Parser.rootPath
+
+// ------------------------------------------------------------------------------------------------- parser.go (stream layering, C02)
+
+//@ func Parser.parents(p, patch) (res) trusted
+//@   ensures (= res (parentsOf (heap Parser.docs) (heap Document.ID) (heap Document.Parents) p patch))
+//@   ensures (rdistinct res)
+//@   ensures (forall ((r Int)) (=> (rmem r res) (and (rmem r (Parser.docs p)) (not (= r 0)))))
+//
+//@ func Document.DataAsMap(d) (res)
+//@   ensures (= res (ite ((_ is VMap) (Document.Data d)) (Document.Data d) VNil))
+//
+//@ func Document.PopMapValue(d, key) (found, val)
+//@   modifies Document.Data[d]
+//@   ensures (= found (and ((_ is VMap) (old (Document.Data d))) (not (= (select (mc (old (Document.Data d))) key) VAbsent))))   [C02]
+//@   ensures (=> found (and (= val (select (mc (old (Document.Data d))) key))
+//@                          (= (heap Document.Data) (store (old (heap Document.Data)) d (VMap (store (mc (old (Document.Data d))) key VAbsent))))))
+//@   ensures (=> (not found) (= (heap Document.Data) (old (heap Document.Data))))
+//
+//@ func Parser.findMatches(p, doc, pat) (res)
+//@   uses filterMatchDistinct, filterMatchSub, rappNil, rsnocApp
+//@   requires (rdistinct (Parser.docs p))
+//@   ensures (= res (ite (not (= (filterMatch (heap Document.Data) (parentsOf (heap Parser.docs) (heap Document.ID) (heap Document.Parents) p doc) pat) RNil))   [C02]
+//@                       (filterMatch (heap Document.Data) (parentsOf (heap Parser.docs) (heap Document.ID) (heap Document.Parents) p doc) pat)
+//@                       (filterMatch (heap Document.Data) (Parser.docs p) pat)))
+//@   ensures (rdistinct res)
+//@   ensures (forall ((r Int)) (=> (rmem r res) (rmem r (Parser.docs p))))
+//@   loop 2
+//@     invariant (= (rapp ret (filterMatch (heap Document.Data) rest pat)) (rapp ret@loop (filterMatch (heap Document.Data) ds pat)))
+
+//@ func yamlTranslateNode(node, depth) (res, err)
+//@   decreases (- 1002 depth)
